@@ -376,7 +376,9 @@ def pexpr_tok(n):
     if isinstance(n, ast.Name):
         return "n " + s_tok(n.id)
     if isinstance(n, ast.Constant):
-        return "c " + s_tok(repr(n.value))
+        return "c %s %d" % (s_tok(repr(n.value)), 1 if isinstance(n.value, (int, float)) else 0)
+    if isinstance(n, ast.NamedExpr):
+        return "named %s %s" % (pexpr_tok(n.target), pexpr_tok(n.value))
     if isinstance(n, ast.Attribute):
         return "a %s %s" % (pexpr_tok(n.value), s_tok(n.attr))
     if isinstance(n, ast.Call):
@@ -602,6 +604,8 @@ def run(ctx):
                 same = False
             if not same:
                 ctx.violation(case, "the re-emitted expression does not parse back to the expression as written", tags=[tag])
+        if any(isinstance(n_, (ast.JoinedStr, ast.FormattedValue)) for n_ in ast.walk(orig)):
+            continue          # re-emitted by ast.unparse: outside the model, judged by the oracle above only
         req.append("print|" + pexpr_tok(orig))
         cases.append((src, io))
     ctx.generators["expressions"] = {"cases": len(cases)}
@@ -696,23 +700,15 @@ def _scope_tag(src, names, kind):
 
 
 def _expr_tag(node):
+    """classify by the one cause that is a known finding: a lambda is written without parentheses (pinned by test_ast.test_expr_generate)"""
     for n in ast.walk(node):
-        if isinstance(n, ast.BinOp) and isinstance(n.op, (ast.Pow, ast.MatMult)):
-            return "c19.expr.pow-matmult"
-        if isinstance(n, ast.Call) and any(k.arg is None for k in n.keywords):
-            return "c19.expr.doublestar"
-        if isinstance(n, ast.Dict) and any(k is None for k in n.keys):
-            return "c19.expr.doublestar"
-        if isinstance(n, (ast.JoinedStr, ast.NamedExpr)):
-            return "c19.expr.unsupported-node"
+        for child in ast.iter_child_nodes(n):
+            if isinstance(child, ast.Lambda) and not isinstance(n, (ast.Call, ast.keyword, ast.Tuple, ast.List, ast.Set, ast.Dict, ast.Subscript, ast.Starred, ast.Lambda, ast.arguments)):
+                return "c19.expr.lambda-unparenthesised"
+            if isinstance(child, ast.Lambda) and isinstance(n, (ast.Tuple, ast.List, ast.Set, ast.Dict, ast.Call, ast.Lambda, ast.keyword, ast.Starred, ast.Subscript)):
+                # a lambda followed by a comma, or whose body is a tuple, conditional or lambda: the text re-parses differently
+                return "c19.expr.lambda-unparenthesised"
     for n in ast.walk(node):
-        if isinstance(n, (ast.IfExp, ast.Lambda)):
-            return "c19.expr.ifexp-lambda-precedence"
-    for n in ast.walk(node):
-        if isinstance(n, ast.Subscript) and isinstance(n.slice, ast.Tuple):
-            return "c19.expr.tuple-subscript"
-        if isinstance(n, ast.Attribute) and isinstance(n.value, ast.Constant) and isinstance(n.value.value, (int, float)):
-            return "c19.expr.number-attribute"
-        if isinstance(n, ast.Starred):
-            return "c19.expr.starred"
+        if isinstance(n, ast.Constant) and n.value is Ellipsis:
+            return "c19.expr.ellipsis-as-name"
     return "c19.expr"
